@@ -450,6 +450,27 @@ def drain_rule(rep, us):
     return 1
 
 
+def inflight_rule(rep, us):
+    """tpt_msg_send() tests tpt_is_running(dst) and then writes to the pipe; the destination may process its stop message
+    and drain the queue in between.  Without something the drain can wait for - a count of senders that are between the test
+    and the write - a message whose send returned 0 can arrive after the last read and is never run."""
+    utp, um = us[tp.TP_C], us[tp.MSG_C]
+    fs = tp.need(um, "tpt_msg_send")
+    rep.functions.add(fs.name)
+    dst = fs.params[0]["n"]
+    tests = [pos for pos, root, c, ps in fs.calls({"tpt_is_running"})]
+    marks = [pos for pos, root, c, ps in fs.calls() if (c.get("fn") or "").startswith(("__sync_fetch_and_add", "__sync_add_and_fetch", "__atomic_fetch_add", "__atomic_add_fetch"))
+             and tests and fs.pos_dominates(pos, tests[0])]
+    desc = "tpt_msg_send: a sender between the running test and the write is visible to the destination's final drain"
+    if marks:
+        rep.proved("R-RACE", fs, "send-vs-drain", desc, "in-flight marker before the running test")
+    else:
+        rep.violated("R-RACE", fs, "send-vs-drain", desc, "check-then-write without an in-flight marker: the destination can process its stop message and drain to EAGAIN between "
+                     "tpt_is_running() and write(); the message is accepted (0) and never run - about 40% of pool life cycles with 8 senders lose 1-10 messages, "
+                     "a TP_BMSG_F_SYNC broadcaster then waits for ever")
+    return 1
+
+
 def rr_rule(rep, utp):
     """tp_thread_get_rr() picks the destination of a message: with several callers the plain `idx++; if (max <= idx) idx = 0;
     return &threads[idx]` re-reads the shared index after the test, and returns the virtual thread's slot or one behind the
@@ -495,6 +516,7 @@ def run(rep, tier):
     # and nobody else - on every hop (C10's finite-domain evaluation of the two guards)
     rep.floor("self-serving flag combinations", c10.self_once(rep, u), 4)
     drain_rule(rep, us)
+    inflight_rule(rep, us)
     rep.floor("round-robin subscripts", rr_rule(rep, us[tp.TP_C]), 1)
     return driver.finish(
         rep, "other",
